@@ -24,6 +24,8 @@ _FLAG_NAMES = {
     'L': _re.L, 'LOCALE': _re.LOCALE,
 }
 _MODES = ('match', 'fullmatch', 'search')
+# dotted package prefix -> repository-relative directory (absolute imports that can be followed)
+PACKAGE_ROOTS = {'hailtop': 'hail/python/hailtop', 'hail': 'hail/python/hail', 'gear': 'gear/gear', 'web_common': 'web_common/web_common'}
 
 _STRING_CONSTANTS = {
     'string.ascii_lowercase': 'abcdefghijklmnopqrstuvwxyz',
@@ -98,6 +100,11 @@ def const_string(m: pf.Module, fn: Optional[pf.FuncDef], e: ast.AST, depth: int 
             if d is None or not isinstance(d, ast.expr):
                 raise AnalysisError(f'{m.rel}: `{e.id}` is not a single-assignment local')
             return const_string(m, fn, d, depth - 1)
+        if e.id in m.imports():
+            r = resolve_import(m, e.id, PACKAGE_ROOTS)
+            if r is None:
+                raise AnalysisError(f'{m.rel}: cannot follow the import of `{e.id}`')
+            return const_string(r[0], None, ast.Name(id=r[1], ctx=ast.Load()), depth - 1)
         return const_string(m, None, module_const(m, e.id), depth - 1)
     raise AnalysisError(f'{m.rel}: cannot resolve `{pf.nsrc(e)}` to a string literal')
 
@@ -151,7 +158,23 @@ def resolve_import(m: pf.Module, local: str, package_roots: Dict[str, str]) -> O
     """`from pkg.mod import sym [as local]` -> (module of pkg.mod, sym), for packages listed in package_roots
     (dotted prefix -> repository-relative directory)."""
     origin = m.imports().get(local)
-    if origin is None or origin.startswith('.'):
+    if origin is None:
+        return None
+    if origin.startswith('.'):
+        # relative import: find the ImportFrom statement itself (the dotted encoding is ambiguous for `from . import x`)
+        import os as _os
+        for st in ast.walk(m.tree):
+            if isinstance(st, ast.ImportFrom) and st.level > 0 and st.module and any((a.asname or a.name) == local for a in st.names):
+                base = _os.path.dirname(m.rel)
+                for _i in range(st.level - 1):
+                    base = _os.path.dirname(base)
+                sym = [a.name for a in st.names if (a.asname or a.name) == local][0]
+                rel = base + '/' + st.module.replace('.', '/')
+                for cand in (rel + '.py', rel + '/__init__.py'):
+                    try:
+                        return pf.load(cand), sym
+                    except AnalysisError:
+                        continue
         return None
     modname, _, sym = origin.rpartition('.')
     for prefix, root in package_roots.items():
@@ -181,8 +204,8 @@ def resolve_regex(m: pf.Module, fn: Optional[pf.FuncDef], e: ast.AST, package_ro
             if d is None:
                 return resolve_regex(m, fn, v, package_roots) if isinstance(v, ast.Name) else _fail(m, e)
             return d
-        if e.id in m.imports() and package_roots:
-            r = resolve_import(m, e.id, package_roots)
+        if e.id in m.imports():
+            r = resolve_import(m, e.id, package_roots or PACKAGE_ROOTS)
             if r is None:
                 _fail(m, e)
             m2, sym = r  # type: ignore[misc]
